@@ -106,23 +106,31 @@ theorem addVec_map (l : List Nat) (g h : Nat → Nat) :
 
 def cnt (c : Cat) (j : Nat) : Nat := (c.events.filter (fun e => e.cell = j)).length
 
-theorem binCounts_eq (nBins : Nat) (c : Cat) : binCounts nBins c = (List.range nBins).map (cnt c) := rfl
+/-- a catalog bound to the forecast's region is counted on the forecast's grid -/
+theorem binCounts_eq (nBins : Nat) (c : Cat) (hg : c.grid = 0) :
+    binCounts nBins c = (List.range nBins).map (cnt c) := by
+  simp [binCounts, binOf, hg, cnt]
+
+/-- after `cat.region = self.region` the counts are those on the forecast's grid, whatever the catalog was bound to -/
+theorem binCounts_rebind (nBins : Nat) (c : Cat) :
+    binCounts nBins (rebind c) = (List.range nBins).map (cnt c) := by
+  simp [binCounts, binOf, rebind, cnt]
 
 theorem foldl_addVec (nBins : Nat) (cs : List Cat) (h : Nat → Nat) :
-    cs.foldl (fun d c' => addVec d (binCounts nBins c')) ((List.range nBins).map h)
+    (cs.map rebind).foldl (fun d c' => addVec d (binCounts nBins c')) ((List.range nBins).map h)
       = (List.range nBins).map (fun j => h j + (cs.map (fun c => cnt c j)).sum) := by
   induction cs generalizing h with
   | nil => simp
   | cons c cs ih =>
-    rw [List.foldl_cons, binCounts_eq, addVec_map, ih]
+    rw [List.map_cons, List.foldl_cons, binCounts_rebind, addVec_map, ih]
     apply List.map_congr_left
     intro j _
     simp [Nat.add_assoc]
 
 theorem accumulate_eq_totals (nBins : Nat) (c : Cat) (cs : List Cat) :
-    accumulate nBins (c :: cs) = some (totals nBins (c :: cs)) := by
-  simp only [accumulate, totals]
-  rw [binCounts_eq, foldl_addVec]
+    accumulate nBins ((c :: cs).map rebind) = some (totals nBins (c :: cs)) := by
+  simp only [List.map_cons, accumulate, totals]
+  rw [binCounts_rebind, foldl_addVec]
   simp [cnt]
 
 end ForecastIter
